@@ -93,6 +93,18 @@ struct Ex {
   bool inRoot(SourceLocation L) { auto P = SM.getPresumedLoc(SM.getExpansionLoc(L)); return P.isValid() && StringRef(P.getFilename()).contains(Root); }
   std::string fkey(const FunctionDecl *FD) { auto *P = patternOf(FD); return P ? loc(P->getLocation()) : ""; }
   std::string fq(const FunctionDecl *FD) { auto *P = patternOf(FD); return P ? qname(P) : ""; }
+  std::map<std::string, std::string> Consts;
+  std::string intConst(const VarDecl *VD) {   // value of a namespace-scope / static member constant of a plain integer type (not bool, not an enumeration, not memory orders)
+    QualType T = VD->getType().getNonReferenceType();
+    if (VD->hasLocalStorage() || !T.isConstQualified() || !T->isIntegerType() || T->isBooleanType() || T->isEnumeralType() || VD->isTemplated() && VD->getType()->isDependentType()) return "";
+    if (!VD->getAnyInitializer() || VD->getAnyInitializer()->isValueDependent()) return "";
+    if (const APValue *V = VD->evaluateValue()) if (V->isInt()) return std::to_string(V->getInt().getExtValue());
+    return "";
+  }
+  std::string vname(const ValueDecl *VD) {   // the unnamed variable behind a structured binding gets a name derived from its position
+    if (isa<DecompositionDecl>(VD)) { auto &SM = C.getSourceManager(); auto L = SM.getSpellingLoc(VD->getLocation()); return "__sb" + std::to_string(SM.getSpellingLineNumber(L)) + "_" + std::to_string(SM.getSpellingColumnNumber(L)); }
+    return VD->getNameAsString();
+  }
   std::string path(const Expr *E) {
     if (!E) return "<null>";
     E = E->IgnoreParenImpCasts();
@@ -100,16 +112,18 @@ struct Ex {
     if (isa<CXXThisExpr>(E)) return "this";
     if (auto *D = dyn_cast<DeclRefExpr>(E)) {
       auto *VD = D->getDecl();
+      if (auto *BD = dyn_cast<BindingDecl>(VD)) if (BD->getBinding()) return path(BD->getBinding());   // auto &[a, b] = x;  a is x.<field>
       if (isa<FunctionDecl>(VD)) return "fn:" + fq(cast<FunctionDecl>(VD));
       std::string k = isa<ParmVarDecl>(VD) ? "param:" : (isa<VarDecl>(VD) ? (cast<VarDecl>(VD)->hasLocalStorage() ? "local:" : "global:") : "decl:");
       if (D->refersToEnclosingVariableOrCapture()) k = "capture:";
       else if (auto *V = dyn_cast<VarDecl>(VD)) if (V->isInitCapture()) k = "capture:";
+      if (k == "global:") if (auto *GV = dyn_cast<VarDecl>(VD)) { std::string n = intConst(GV); if (!n.empty()) Consts["global:" + qname(VD)] = n; }   // static constexpr std::size_t trailer_size = sizeof(void *): the value goes to a side table
       if (k == "global:" || k == "decl:") return k + qname(VD);
-      return k + VD->getNameAsString();
+      return k + vname(VD);
     }
     if (auto *M = dyn_cast<MemberExpr>(E)) {
       if (isa<CXXMethodDecl>(M->getMemberDecl())) return path(M->getBase());
-      if (auto *VD = dyn_cast<VarDecl>(M->getMemberDecl())) return "global:" + qname(VD);   // static data member through an object
+      if (auto *VD = dyn_cast<VarDecl>(M->getMemberDecl())) { std::string n = intConst(VD); if (!n.empty()) Consts["global:" + qname(VD)] = n; return "global:" + qname(VD); }   // static data member through an object
       return path(M->getBase()) + (M->isArrow()?"->":".") + M->getMemberDecl()->getNameAsString();
     }
     if (auto *U = dyn_cast<UnaryOperator>(E)) {
@@ -127,7 +141,7 @@ struct Ex {
     if (auto *Cst = dyn_cast<ExplicitCastExpr>(E)) return path(Cst->getSubExpr());
     if (auto *MC = dyn_cast<CXXMemberCallExpr>(E)) return "call(" + fq(MC->getMethodDecl()) + ")";
     if (auto *CE = dyn_cast<CallExpr>(E)) {
-      if (auto *FD = CE->getDirectCallee()) { std::string n = fq(FD); if ((n=="std::move"||n=="std::forward"||n=="std::addressof") && CE->getNumArgs()==1) return (n=="std::addressof"?"&(":n.substr(5)+"(") + path(CE->getArg(0)) + ")"; return "call(" + n + ")"; }
+      if (auto *FD = CE->getDirectCallee()) { std::string n = fq(FD); if (n=="std::as_const" && CE->getNumArgs()==1) return path(CE->getArg(0)); if ((n=="std::move"||n=="std::forward"||n=="std::addressof") && CE->getNumArgs()==1) return (n=="std::addressof"?"&(":n.substr(5)+"(") + path(CE->getArg(0)) + ")"; return "call(" + n + ")"; }
       return "call(?)";
     }
     if (isa<CXXNullPtrLiteralExpr>(E) || isa<GNUNullExpr>(E)) return "nullptr";
@@ -149,6 +163,10 @@ struct Ex {
     if (auto *OV = dyn_cast<OpaqueValueExpr>(E)) return path(OV->getSourceExpr());
     return std::string("<") + E->getStmtClassName() + ">";
   }
+  const Expr *asConstArg(const Expr *E) {   // std::as_const(x) is x
+    if (auto *CE = dyn_cast_or_null<CallExpr>(E)) if (!isa<CXXMemberCallExpr>(CE) && !isa<CXXOperatorCallExpr>(CE)) if (auto *FD = CE->getDirectCallee()) if (CE->getNumArgs()==1 && fq(FD)=="std::as_const") return CE->getArg(0);
+    return nullptr;
+  }
   std::string firstField(const Expr *E) {   // declaration of the outermost data member in an access path
     E = E ? E->IgnoreParenImpCasts() : nullptr; std::string last;
     while (E) {
@@ -157,7 +175,8 @@ struct Ex {
       if (auto *O = dyn_cast<CXXOperatorCallExpr>(E)) { if ((O->getOperator()==OO_Subscript||O->getOperator()==OO_Arrow||O->getOperator()==OO_Star) && O->getNumArgs()) { E = O->getArg(0)->IgnoreParenImpCasts(); continue; } }
       if (auto *U = dyn_cast<UnaryOperator>(E)) { if (U->getOpcode()==UO_Deref || U->getOpcode()==UO_AddrOf) { E = U->getSubExpr()->IgnoreParenImpCasts(); continue; } }
       if (auto *Cst = dyn_cast<ExplicitCastExpr>(E)) { E = Cst->getSubExpr()->IgnoreParenImpCasts(); continue; }
-      if (auto *D = dyn_cast<DeclRefExpr>(E)) { if (auto *VD = dyn_cast<VarDecl>(D->getDecl())) if (!VD->hasLocalStorage() && last.empty()) last = qname(VD); }
+      if (auto *AC = asConstArg(E)) { E = AC->IgnoreParenImpCasts(); continue; }
+      if (auto *D = dyn_cast<DeclRefExpr>(E)) { if (auto *BD = dyn_cast<BindingDecl>(D->getDecl())) if (BD->getBinding()) { E = BD->getBinding()->IgnoreParenImpCasts(); continue; } if (auto *VD = dyn_cast<VarDecl>(D->getDecl())) if (!VD->hasLocalStorage() && last.empty()) last = qname(VD); }
       break;
     }
     return last;
@@ -165,6 +184,8 @@ struct Ex {
   // the immediate member of the access (a.b.c -> decl of c)
   std::string lastField(const Expr *E) {
     E = E ? E->IgnoreParenImpCasts() : nullptr;
+    if (auto *AC = asConstArg(E)) E = AC->IgnoreParenImpCasts();
+    if (auto *D = dyn_cast_or_null<DeclRefExpr>(E)) if (auto *BD = dyn_cast<BindingDecl>(D->getDecl())) if (BD->getBinding()) E = BD->getBinding()->IgnoreParenImpCasts();
     if (auto *M = dyn_cast_or_null<MemberExpr>(E)) if (auto *FD = dyn_cast<FieldDecl>(M->getMemberDecl())) return qname(FD->getParent()) + "::" + FD->getNameAsString();
     return "";
   }
@@ -257,7 +278,7 @@ struct Ex {
     if (auto *FS = dyn_cast<ForStmt>(P)) return FS->getCond()==Cur ? "cond" : "discard";
     if (auto *DS = dyn_cast<DoStmt>(P)) return DS->getCond()==Cur ? "cond" : "discard";
     if (isa<CXXForRangeStmt>(P)) return "other";
-    if (auto *DS = dyn_cast<DeclStmt>(P)) { for (auto *D : DS->decls()) if (auto *VD = dyn_cast<VarDecl>(D)) if (VD->getInit()==Cur) return "init:" + VD->getNameAsString(); return "init"; }
+    if (auto *DS = dyn_cast<DeclStmt>(P)) { for (auto *D : DS->decls()) if (auto *VD = dyn_cast<VarDecl>(D)) if (VD->getInit()==Cur) return "init:" + vname(VD); return "init"; }
     if (auto *U = dyn_cast<UnaryOperator>(P)) { if (U->getOpcode()==UO_LNot) { std::string u = useOf(P, PM); return u; } return "operand"; }
     if (auto *BO = dyn_cast<BinaryOperator>(P)) { if (BO->isAssignmentOp() && BO->getRHS()==Cur) return "assign:" + path(BO->getLHS()); if (BO->isLogicalOp()) return useOf(P, PM); if (BO->getOpcode()==BO_Comma) return BO->getRHS()==Cur ? useOf(P, PM) : "discard"; return "operand"; }
     if (auto *CO = dyn_cast<ConditionalOperator>(P)) { if (CO->getCond()==Cur) return "cond"; return useOf(P, PM); }
@@ -288,6 +309,10 @@ struct Ex {
     if (Parent) { F["parent_inst"] = instName(Parent); F["inst"] = instName(Parent) + " :: " + instName(FD); } else F["inst"] = instName(FD);
     F["lines"] = json::Array{(int64_t)line(FD->getBeginLoc()), (int64_t)line(FD->getEndLoc())};
     if (Parent) F["parent_key"] = fkey(Parent);
+    if (auto *MDl = dyn_cast<CXXMethodDecl>(FD)) if (MDl->getParent()->isLambda()) {   // the function whose body contains the lambda expression (an enclosing lambda for nested ones)
+      const DeclContext *DC = MDl->getParent()->getDeclContext(); while (DC && !isa<FunctionDecl>(DC)) DC = DC->getParent();
+      if (auto *EF = dyn_cast_or_null<FunctionDecl>(DC)) { std::string ek = fkey(EF); if (!Parent || ek != fkey(Parent)) F["encl_key"] = ek; }
+    }
     if (auto *MD = dyn_cast<CXXMethodDecl>(FD)) { F["class"] = qname(MD->getParent()); if (MD->getParent()->isLambda()) F["lambda"] = true; F["access"] = (int)MD->getAccess(); F["static"] = MD->isStatic(); F["kind"] = isa<CXXConstructorDecl>(MD)?"ctor":isa<CXXDestructorDecl>(MD)?"dtor":isa<CXXConversionDecl>(MD)?"conv":"method"; F["virtual"] = MD->isVirtual();
       std::string s; llvm::raw_string_ostream os(s); MD->getParent()->getNameForDiagnostic(os, PrintingPolicy(LangOptions()), true); F["class_inst"] = os.str(); }
     if (auto *FPT = FD->getType()->getAs<FunctionProtoType>()) F["noexcept"] = FPT->isNothrow();
@@ -349,7 +374,7 @@ struct Ex {
         } else if (auto *RS = dyn_cast<ReturnStmt>(S)) { E["k"]="return"; if (RS->getRetValue()) { E["path"]=path(RS->getRetValue()); if (auto v = constVal(RS->getRetValue()); v.kind()!=json::Value::Null) E["const"]=v; int re = evOf(RS->getRetValue()); if (re>=0) E["ret_ev"]=re; } keep = true;
         } else if (auto *CR = dyn_cast<CoreturnStmt>(S)) { E["k"]="return"; E["co"]=true; if (CR->getOperand()) E["path"]=path(CR->getOperand()); keep = true;
         } else if (auto *TE = dyn_cast<CXXThrowExpr>(S)) { E["k"]="throw"; if (TE->getSubExpr()) E["type"]=TE->getSubExpr()->getType().getAsString(); else E["rethrow"]=true; keep = true;
-        } else if (auto *DS = dyn_cast<DeclStmt>(S)) { for (auto *D : DS->decls()) if (auto *VD = dyn_cast<VarDecl>(D)) { E["k"]="decl"; E["var"]=VD->getNameAsString(); E["type"]=VD->getType().getAsString(); E["ref"]=VD->getType()->isReferenceType(); E["ptr"]=VD->getType()->isPointerType(); if (VD->getInit()) { E["init"]=path(VD->getInit()); { std::string ff = firstField(VD->getInit()); if (!ff.empty()) E["init_field"]=ff; } int ie = evOf(VD->getInit()); if (ie>=0) E["init_ev"]=ie; else if (auto *CC2 = dyn_cast<CXXConstructExpr>(peelVal(VD->getInit()))) { auto it2 = ids.find(CC2); if (it2!=ids.end()) E["init_ev"]=it2->second; } if (auto v = constVal(VD->getInit()); v.kind()!=json::Value::Null) E["const"]=v; } keep = true; } }
+        } else if (auto *DS = dyn_cast<DeclStmt>(S)) { for (auto *D : DS->decls()) if (auto *VD = dyn_cast<VarDecl>(D)) { E["k"]="decl"; E["var"]=vname(VD); E["type"]=VD->getType().getAsString(); E["ref"]=VD->getType()->isReferenceType(); E["ptr"]=VD->getType()->isPointerType(); if (VD->getInit()) { E["init"]=path(VD->getInit()); { std::string ff = firstField(VD->getInit()); if (!ff.empty()) E["init_field"]=ff; } int ie = evOf(VD->getInit()); if (ie>=0) E["init_ev"]=ie; else if (auto *CC2 = dyn_cast<CXXConstructExpr>(peelVal(VD->getInit()))) { auto it2 = ids.find(CC2); if (it2!=ids.end()) E["init_ev"]=it2->second; } if (auto v = constVal(VD->getInit()); v.kind()!=json::Value::Null) E["const"]=v; } keep = true; } }
         else if (auto *LE = dyn_cast<LambdaExpr>(S)) {
           E["k"]="lambda"; E["fn_key"]=loc(LE->getCallOperator()->getLocation()); E["use"]=useOf(S, PM); keep = true; json::Array caps;
           auto *RD = LE->getLambdaClass(); auto FI = RD->field_begin(); auto CI = LE->capture_init_begin();
@@ -415,6 +440,6 @@ public:
     return true;
   }
 };
-class Cons : public ASTConsumer { public: void HandleTranslationUnit(ASTContext &C) override { if (C.getDiagnostics().hasErrorOccurred()) { llvm::errs() << "extract: translation unit has errors, no facts written\n"; return; } Ex X(C); json::Array Fns, Cls; V v(X,Fns,Cls); v.TraverseDecl(C.getTranslationUnitDecl()); std::error_code EC; llvm::raw_fd_ostream OS(Out, EC); OS << json::Value(json::Object{{"functions",std::move(Fns)},{"classes",std::move(Cls)},{"all",std::move(v.All)}}) << "\n"; } };
+class Cons : public ASTConsumer { public: void HandleTranslationUnit(ASTContext &C) override { if (C.getDiagnostics().hasErrorOccurred()) { llvm::errs() << "extract: translation unit has errors, no facts written\n"; return; } Ex X(C); json::Array Fns, Cls; V v(X,Fns,Cls); v.TraverseDecl(C.getTranslationUnitDecl()); std::error_code EC; llvm::raw_fd_ostream OS(Out, EC); json::Object Cs; for (auto &kv : X.Consts) Cs[kv.first] = kv.second; OS << json::Value(json::Object{{"functions",std::move(Fns)},{"classes",std::move(Cls)},{"all",std::move(v.All)},{"consts",std::move(Cs)}}) << "\n"; } };
 class Act : public ASTFrontendAction { public: std::unique_ptr<ASTConsumer> CreateASTConsumer(CompilerInstance&, StringRef) override { return std::make_unique<Cons>(); } };
 int main(int argc, const char **argv){ auto P = CommonOptionsParser::create(argc, argv, Cat); if(!P){llvm::errs()<<P.takeError();return 1;} ClangTool T(P->getCompilations(), P->getSourcePathList()); return T.run(newFrontendActionFactory<Act>().get()); }
